@@ -996,7 +996,8 @@ C04_THEOREMS = ["fwd_first_window", "fwd_windows_tile", "rev_first_window", "rev
                 "read_all_eq_parseFasta", "read_all_eq_specFasta", "read_all_block_size_independent",
                 "readInfo_closed_form", "readSequence_closed_form", "read_readInfo_readSequence_agree",
                 "windows_eq_read", "windows_concat_eq_read", "windows_coords", "read_nres_closed_form", "readBlock_short_eq_read", "write_read_roundtrip", "writeFasta_is_fastaText",
-                "loadbuf_line_closed_form", "loadbuf_line_block_size_independent", "open_line_based"]
+                "loadbuf_line_closed_form", "loadbuf_line_block_size_independent", "open_line_based",
+                "rev_first_window_eq_revcomp_slice", "rev_next_window_eq_revcomp_slice"]
 C02_THEOREMS = ["loadbuf_total", "nextchar_total", "nextchar_no_fault", "seebuf_total", "inmaps_agree",
                 "read_total", "read_no_fault", "readInfo_total", "readSequence_total", "read_all_total", "readBlock_total", "read_nres_total"]
 C07_THEOREMS = ["findSubseq_absent", "findSubseq_out_of_range", "fetchSubseq_absent", "fetchSubseq_start_out_of_range", "findSubseq_cases",
